@@ -331,19 +331,39 @@ func doBind(sc *Collection, originalInvokeF *provider, originalInitF *provider, 
 		}
 	}
 
-	// Generate static chain function
+	// Generate static chain function.  Literal values and static injectors take effect
+	// in listed order: a static injector sees the value listed most recently before it,
+	// not a value of the same type that is listed after it.  (All values are also in
+	// place from the start, see above, for whoever looks before the chain has run.)
+	staticSequence := make([]*provider, 0, len(collections[literalGroup])+len(collections[staticGroup]))
+	for _, fm := range funcs {
+		if fm.include && (fm.group == literalGroup || fm.group == staticGroup) {
+			staticSequence = append(staticSequence, fm)
+		}
+	}
 	runStaticChain := func() error {
 		debugf("STATIC CHAIN LENGTH: %d", len(collections[staticGroup]))
-		for _, inj := range collections[staticGroup] {
+		var failed error
+		for _, inj := range staticSequence {
+			if inj.group == literalGroup {
+				if i := downVmap[inj.flows[outputParams][0]]; i >= 0 {
+					baseValues[i] = reflect.ValueOf(inj.fn)
+				}
+				continue
+			}
+			if failed != nil {
+				// the remaining injectors are skipped; the remaining values still count
+				continue
+			}
 			debugf("STATIC CHAIN CALLING %s", inj)
 
 			err := inj.wrapStaticInjector(baseValues)
 			if err != nil {
 				debugf("STATIC CHAIN RETURNING EARLY DUE TO ERROR %s", err)
-				return err
+				failed = err
 			}
 		}
-		return nil
+		return failed
 	}
 	for _, inj := range collections[staticGroup] {
 		if inj.wrapStaticInjector == nil {
